@@ -247,6 +247,10 @@ def alg_from_header(ctx, fx, A, fn, arg):
 
 
 def check_unpack_root(ctx, fx, u):
+    return check_unpack_root_as(ctx, fx, u, "C02.R4")
+
+
+def check_unpack_root_as(ctx, fx, u, RULE):
     """the function stored into verified_claims must traverse from self.sd_jwt_payload"""
     uv = vals(u)
     rv = uv.return_value()
@@ -258,12 +262,12 @@ def check_unpack_root(ctx, fx, u):
             if must(k, lambda y: is_field(y, "sd_jwt_payload", VSTRUCT)):
                 found = True
             if has_field(k, "unverified_input_sd_jwt_payload"):
-                ctx.finding("C02.R4", u, "unpack-root", "claims are unpacked from the unverified payload copy", line=c.d["term"].get("line"))
+                ctx.finding(RULE, u, "unpack-root", "claims are unpacked from the unverified payload copy", line=c.d["term"].get("line"))
                 return
     if found:
-        ctx.ok("C02.R4", u, "unpack-root", "the unpacker's traversal root must-derives from the verified sd_jwt_payload")
+        ctx.ok(RULE, u, "unpack-root", "the unpacker's traversal root must-derives from the verified sd_jwt_payload")
     else:
-        ctx.finding("C02.R4", u, "unpack-root", "the value stored in verified_claims is not unpacked from self.sd_jwt_payload: %s" % vstr(rv, 5))
+        ctx.finding(RULE, u, "unpack-root", "the value stored in verified_claims is not unpacked from self.sd_jwt_payload: %s" % vstr(rv, 5))
 
 
 def all_struct_writes(fx, fn, adt):
